@@ -17,6 +17,7 @@ import (
 	"github.com/nspcc-dev/neo-go/pkg/core/native/nativenames"
 	"github.com/nspcc-dev/neo-go/pkg/core/native/noderoles"
 	"github.com/nspcc-dev/neo-go/pkg/core/state"
+	"github.com/nspcc-dev/neo-go/pkg/core/transaction"
 	"github.com/nspcc-dev/neo-go/pkg/crypto/hash"
 	"github.com/nspcc-dev/neo-go/pkg/crypto/keys"
 	"github.com/nspcc-dev/neo-go/pkg/encoding/address"
@@ -117,6 +118,7 @@ type cnrEnv struct {
 	ownerSH   [][]byte // script hashes (balance accounts)
 	alphaOwners []int  // indices of the owners that are Alphabet nodes' standard accounts
 	firstSized  int    // index of the first size-boundary blob in blobs
+	scope       int    // witness scope of the operation being executed (see cnrOp.Scope)
 	maxBlob     int    // largest blob length a put transaction can carry
 
 	nns, netmap, balance, neofsid, container util.Uint160
@@ -246,7 +248,18 @@ func (c *cnrEnv) invokeAt(dt uint64, signers []neotest.Signer, h util.Uint160, m
 	// storing a 64 KiB descriptor costs about 65 GAS: a generous system fee, so
 	// that gas (not modelled) never decides an outcome
 	tx := c.E.NewUnsignedTx(c.T, h, method, args...)
-	c.E.SignTx(c.T, tx, 400_0000_0000, signers...)
+	for i, sg := range signers {
+		sc := transaction.Global
+		if i > 0 { // the payer (sender) is never a party; its scope does not matter
+			sc = []transaction.WitnessScope{transaction.Global, transaction.CalledByEntry, transaction.None}[c.scope]
+		}
+		tx.Signers = append(tx.Signers, transaction.Signer{Account: sg.ScriptHash(), Scopes: sc})
+	}
+	neotest.AddNetworkFee(c.T, c.BC, tx, signers...)
+	c.E.AddSystemFee(tx, 400_0000_0000)
+	for _, sg := range signers {
+		require.NoError(c.T, sg.SignTx(c.BC.GetConfig().Magic, tx))
+	}
 	b := c.E.NewUnsignedBlock(c.T, tx)
 	b.Timestamp += dt
 	c.E.SignBlock(b)
@@ -442,6 +455,7 @@ type cnrOp struct {
 	Data    []byte   `json:"data,omitempty"`
 	Role    int      `json:"role,omitempty"`   // designate: native role (4 StateValidator, 8 Oracle, 16 NeoFSAlphabet, 32 P2PNotary)
 	Keys    [][]byte `json:"keys,omitempty"`   // designate: public keys
+	Scope   int      `json:"scope,omitempty"`  // witness scope of every signer but the payer: 0 Global, 1 CalledByEntry, 2 None
 	Signers []int    `json:"signers"` // -1 alphabet, -2 committee, i>=0 owner i (the payer always signs first)
 	DT      uint64   `json:"dt,omitempty"` // extra milliseconds before this block
 }
@@ -462,6 +476,7 @@ type cnrObs struct {
 	other   int
 	rawKeys [][]byte
 	idkeys  [][][]byte
+	fees    [2]*big.Int // netmap.config(ContainerFee), config(ContainerAliasFee); nil = Null
 }
 
 type cnrGot struct {
@@ -510,10 +525,34 @@ func (c *cnrEnv) signers(idx []int) []neotest.Signer {
 	return out
 }
 
+// witnessed maps the signers and their witness scope to the model's context.
+// The model has one flag for the Alphabet witness and one witness list, used
+// by the contracts that Container calls (NNS; Balance and NeoFSID use the
+// flag).  With scope None a signer witnesses nothing.  With CalledByEntry its
+// witness holds in the contract the transaction invokes, not in the contracts
+// that one calls:
+//   - direct invocations (balance, netmap, nns): as Global;
+//   - delete / setEACL: Container's own Alphabet check passes (flag true), NNS
+//     does not see the signer (not in the list);
+//   - put / putNamed / putMeta: Container's check passes but balance.transferX,
+//     called once per Alphabet node, refuses: the invocation always faults, which
+//     is what the model does with the flag false.
 func (c *cnrEnv) witnessed(op cnrOp) (hs [][]byte, alpha bool) {
-	for _, s := range c.signers(op.Signers) {
-		hs = append(hs, s.ScriptHash().BytesBE())
-		if s.ScriptHash() == c.alpha.ScriptHash() {
+	direct := false
+	switch op.Kind {
+	case "mint", "transfer", "setConfig", "nnsRegister", "nnsAddTxt", "nnsDelTxt":
+		direct = true
+	}
+	isPut := op.Kind == "put" || op.Kind == "putNamed" || op.Kind == "putMeta"
+	for i, s := range c.signers(op.Signers) {
+		sc := op.Scope
+		if i == 0 {
+			sc = 0
+		}
+		if sc == 0 || (sc == 1 && direct) {
+			hs = append(hs, s.ScriptHash().BytesBE())
+		}
+		if s.ScriptHash() == c.alpha.ScriptHash() && (sc == 0 || (sc == 1 && !isPut)) {
 			alpha = true
 		}
 	}
@@ -522,6 +561,7 @@ func (c *cnrEnv) witnessed(op cnrOp) (hs [][]byte, alpha bool) {
 
 func (c *cnrEnv) exec(op cnrOp) cnrObs {
 	sg := c.signers(op.Signers)
+	c.scope = op.Scope
 	var r Result
 	var ts uint64
 	switch op.Kind {
@@ -682,6 +722,13 @@ func (c *cnrEnv) observe(o *cnrObs) {
 			o.scan[5]++
 		default:
 			o.other++
+		}
+	}
+	for i, k := range []string{"ContainerFee", "ContainerAliasFee"} {
+		if it, err := c.Read(c.netmap, "config", []byte(k)); err == nil {
+			if _, isNull := it.(stackitem.Null); !isNull {
+				o.fees[i] = ItemInt(it)
+			}
 		}
 	}
 	for _, ow := range c.ownerIDs {
@@ -962,14 +1009,15 @@ type cnrMon struct {
 	cfg     map[string]*big.Int
 	prev    *cnrObs
 	hist    []cnrOp
-	nnsFree bool // no direct NNS writes / time jumps so far: the NNS-trace check applies
+	foreign map[string]bool            // TXT data written into NNS directly (not by Container)
+	expLeft map[string]map[string]bool // cid -> alias domains that were expired / unregistered when the container was deleted
 	wfAlias bool // the premise wf_alias of C04_delete_total_partial holds so far (conservative)
 	nPutOK, nPutFail, nDelOK, nEaclOK, nNamedOK int
 }
 
 func newCnrMon(c *cnrEnv, st *Stats, prop string) *cnrMon {
 	return &cnrMon{c: c, st: st, prop: prop, live: map[string]*cnrInfo{}, dead: map[string]bool{},
-		oldAl: map[string][]string{}, cfg: map[string]*big.Int{}, nnsFree: true, wfAlias: true}
+		oldAl: map[string][]string{}, cfg: map[string]*big.Int{}, foreign: map[string]bool{}, expLeft: map[string]map[string]bool{}, wfAlias: true}
 }
 
 func (m *cnrMon) violate(what string) { m.st.AddViolation(what, m.hist) }
@@ -1033,9 +1081,6 @@ func (m *cnrMon) step(op cnrOp, o *cnrObs) {
 	m.hist = append(m.hist, op)
 	c := m.c
 	isPut := op.Kind == "put" || op.Kind == "putNamed" || op.Kind == "putMeta"
-	if op.DT > 0 || strings.HasPrefix(op.Kind, "nns") {
-		m.nnsFree = false
-	}
 	var cevs, tx []cnrEvent
 	for _, ev := range o.events {
 		if ev.kind >= 10 {
@@ -1071,6 +1116,9 @@ func (m *cnrMon) step(op cnrOp, o *cnrObs) {
 	default:
 		if len(cevs) != 0 {
 			m.violate4(fmt.Sprintf("%s (halt=%v) emitted a container notification", op.Kind, o.halt))
+		}
+		if op.Kind == "delete" && o.halt && m.live[string(op.Cid)] != nil {
+			m.violate4(fmt.Sprintf("delete of the live container %x halted without deleting it (no DeleteSuccess)", op.Cid))
 		}
 	}
 	// --- reference registry
@@ -1123,6 +1171,17 @@ func (m *cnrMon) step(op cnrOp, o *cnrObs) {
 			if !ok {
 				m.wfAlias = false
 			}
+			for i, dm := range c.domains {
+				if string(dm) == inf.alias && !o.records[i].ok {
+					// NNS reports the alias domain expired / not found: the contract lets
+					// the delete pass and the record stays in NNS storage (out of the
+					// property's scope: no expiry in its quantifier)
+					if m.expLeft[string(op.Cid)] == nil {
+						m.expLeft[string(op.Cid)] = map[string]bool{}
+					}
+					m.expLeft[string(op.Cid)][inf.alias] = true
+				}
+			}
 		}
 		delete(m.live, string(op.Cid))
 		m.dead[string(op.Cid)] = true
@@ -1138,6 +1197,7 @@ func (m *cnrMon) step(op cnrOp, o *cnrObs) {
 	case op.Kind == "setConfig" && o.halt:
 		m.cfg[op.Key] = op.Amount
 	case op.Kind == "nnsAddTxt" && o.halt:
+		m.foreign[string(op.Data)] = true
 		for _, b := range o.recCids(m) {
 			if cnrB58Encode(b) == string(op.Data) {
 				m.wfAlias = false
@@ -1239,12 +1299,18 @@ func (m *cnrMon) step(op cnrOp, o *cnrObs) {
 		}
 	}
 	// --- C04: NNS records of alias domains
-	if m.nnsFree {
+	// every TXT record NNS shows under an alias domain belongs to a live container
+	// that has this alias; in particular, after DeleteSuccess the record is gone
+	// (a delete either removes everything or faults and changes nothing)
+	{
 		for i, dm := range c.domains {
 			if !o.records[i].ok {
 				continue
 			}
 			for _, rec := range o.records[i].recs {
+				if m.foreign[string(rec)] {
+					continue
+				}
 				var owner []byte
 				for _, b := range o.recCids(m) {
 					if cnrB58Encode(b) == string(rec) {
@@ -1270,10 +1336,23 @@ func (m *cnrMon) step(op cnrOp, o *cnrObs) {
 					if m.prop == "C04" {
 						m.st.AddKnown("C04/realias")
 					}
+				} else if m.expLeft[string(owner)][string(dm)] {
+					// left behind by a delete that found the domain expired, visible again
+					// after somebody re-registered the name
 				} else {
 					m.violate4(fmt.Sprintf("alias domain %s still holds the TXT record of container %x which is not live under that name", dm, owner))
 				}
 			}
+		}
+	}
+	// --- C05: the fee values in force are those of the accepted setConfig calls
+	for i, k := range []string{"ContainerFee", "ContainerAliasFee"} {
+		want := m.cfg[k]
+		switch {
+		case want == nil && o.fees[i] != nil:
+			m.violate5(fmt.Sprintf("netmap.config(%s) = %s, never configured", k, o.fees[i]))
+		case want != nil && (o.fees[i] == nil || o.fees[i].Cmp(want) != 0):
+			m.violate5(fmt.Sprintf("netmap.config(%s) = %v after setConfig(%s, %s) was accepted", k, o.fees[i], k, want))
 		}
 	}
 	// --- C05: exact fee, atomicity
@@ -1764,13 +1843,17 @@ func (g *cnrGen) next(step int) cnrOp {
 	if g.pending != nil {
 		op := *g.pending
 		g.pending = nil
-		return op
+		return g.scoped(op)
 	}
 	if step == 0 && r.Intn(10) != 0 {
 		return cnrOp{Kind: "setConfig", Key: "ContainerFee", Amount: cnrFees[r.Intn(4)], Signers: []int{-1}}
 	}
 	if step == 1 && r.Intn(6) != 0 {
 		return cnrOp{Kind: "setConfig", Key: "ContainerAliasFee", Amount: cnrFees[r.Intn(4)], Signers: []int{-1}}
+	}
+	if step == 3 && r.Intn(100) < 30 {
+		// an alias domain registered in advance by the committee (no TXT record)
+		return cnrOp{Kind: "nnsRegister", Name: string(c.domains[r.Intn(len(c.domains))]), To: c.committee.ScriptHash().BytesBE(), Expire: 3600 * 24 * 365, Signers: []int{-2}}
 	}
 	if step == 2 && r.Intn(100) < 35 {
 		return c.designation(noderoles.NeoFSAlphabet, r.Intn(5)) // roles designated before the first put
@@ -1876,6 +1959,28 @@ func (g *cnrGen) next(step int) cnrOp {
 	}
 	if r.Intn(40) == 0 {
 		op.DT = []uint64{1500, 3000, 11 * 365 * 24 * 3600 * 1000}[r.Intn(3)]
+	}
+	return g.scoped(op)
+}
+
+// scoped: now and then the signers' witnesses do not reach the contracts that
+// Container calls (CalledByEntry) or witness nothing at all (None).
+func (g *cnrGen) scoped(op cnrOp) cnrOp {
+	switch op.Kind {
+	case "delete":
+		switch x := g.r.Intn(100); {
+		case x < 18:
+			op.Scope = 1
+		case x < 22:
+			op.Scope = 2
+		}
+	case "put", "putNamed", "putMeta", "setEACL":
+		switch x := g.r.Intn(100); {
+		case x < 6:
+			op.Scope = 1
+		case x < 9:
+			op.Scope = 2
+		}
 	}
 	return op
 }
@@ -2015,11 +2120,36 @@ func cnrCorpus(c *cnrEnv) [][]cnrOp {
 		c.designation(noderoles.NeoFSAlphabet, 4), // a single stranger
 		put(2, cnrTok),                            // owner 2 holds 0: refused
 		del(0)}
+	// witness scopes: the Alphabet's / committee's witness reaches Container but
+	// not the contracts it calls (CalledByEntry), or witnesses nothing (None);
+	// contract-registered aliases and committee-pre-registered domains.  A delete
+	// removes everything incl. the NNS record and announces it, or faults and
+	// changes nothing.
+	sc := func(op cnrOp, scope int) cnrOp { op.Scope = scope; return op }
+	only := func(op cnrOp, sg []int) cnrOp { op.Signers = sg; return op }
+	scopes := []cnrOp{fee("ContainerFee", 0), fee("ContainerAliasFee", 0),
+		{Kind: "nnsRegister", Name: "aaa.cdn", To: comm, Expire: 3600 * 24 * 365, Signers: []int{-2}},
+		named(0, "aaa", "cdn", both),          // committee-owned domain, no registration by the contract
+		named(1, "bbb", "", both),             // the contract registers bbb.container itself
+		sc(only(del(0), both), 1),             // NNS does not see the committee: refused by NNS, nothing changes
+		sc(only(del(0), both), 2),             // no witness at all
+		only(del(0), al),                      // Alphabet only: refused where it is not the committee majority
+		sc(cnrOp{Kind: "setEACL", Blob: cnrEACL(0, c.cids[0], 1), Sig: cnrSigA, Pub: P[1], Tok: cnrTok, Signers: al}, 1), // Container's own check suffices
+		sc(put(2, cnrTok), 1),                 // balance.transferX does not see the Alphabet
+		sc(put(2, nil), 2),
+		sc(named(2, "c-1", "", both), 1),
+		sc(only(del(1), al), 1),               // the alias domain belongs to the contract: accepted, record removed
+		named(2, "bbb", "", al),               // the name is reusable
+		only(del(0), both),                    // accepted with the committee's witness; record removed
+		named(3, "aaa", "cdn", both),          // the pre-registered name is reusable
+		sc(only(del(3), both), 1), sc(only(del(2), both), 2),
+		only(del(3), both), del(2)}
 	return [][]cnrOp{
 		selfPay,
 		sizes,
 		envelope,
 		roles,
+		scopes,
 		{ // F13: a second alias for a live container; delete removes only the last one
 			fee("ContainerFee", 7), fee("ContainerAliasFee", 1), mint(0, 1000), mint(1, 1000),
 			put(0, cnrTok),
@@ -2115,11 +2245,11 @@ func cnrOpString(op cnrOp) string {
 	switch op.Kind {
 	case "put", "putMeta", "putNamed":
 		h := sha256.Sum256(op.Blob)
-		return fmt.Sprintf("%s(blob=%s cid=%s pub=%d tok=%d name=%q zone=%q meta=%v signers=%v dt=%d)", op.Kind, short(op.Blob), short(h[:]), len(op.Pub), len(op.Tok), op.Name, op.Zone, op.Meta, op.Signers, op.DT)
+		return fmt.Sprintf("%s(blob=%s cid=%s pub=%d tok=%d name=%q zone=%q meta=%v signers=%v scope=%d dt=%d)", op.Kind, short(op.Blob), short(h[:]), len(op.Pub), len(op.Tok), op.Name, op.Zone, op.Meta, op.Signers, op.Scope, op.DT)
 	case "delete":
-		return fmt.Sprintf("delete(cid=%s signers=%v dt=%d)", short(op.Cid), op.Signers, op.DT)
+		return fmt.Sprintf("delete(cid=%s signers=%v scope=%d dt=%d)", short(op.Cid), op.Signers, op.Scope, op.DT)
 	case "setEACL":
-		return fmt.Sprintf("setEACL(eacl=%s pub=%d signers=%v)", short(op.Blob), len(op.Pub), op.Signers)
+		return fmt.Sprintf("setEACL(eacl=%s pub=%d signers=%v scope=%d)", short(op.Blob), len(op.Pub), op.Signers, op.Scope)
 	case "mint":
 		return fmt.Sprintf("mint(to=%s amount=%v signers=%v)", short(op.To), op.Amount, op.Signers)
 	case "transfer":
@@ -2140,14 +2270,14 @@ func cnrOpString(op cnrOp) string {
 func runContainerFamily(t *testing.T, prop string) {
 	st := NewStats(prop)
 	if prop == "C04" {
-		st.Rule = "histories = 8 corpus witnesses (+3 on a four-key committee in the quick tier) + seeded structured generation over 3 owners + the Alphabet nodes' own accounts as owners, 6+ short container blobs (version-field lengths 0,2,5) and blobs of 252, 253, 254, 255, 256, 300, 1024, 4096 bytes and the largest size a transaction carries, eACL tables / tokens / signatures / name labels at their length boundaries, 3 names x 2 zones, malformed blobs/ids/names, missing witnesses, native roles (NeoFSAlphabet, P2PNotary, Oracle, StateValidator) designated with lists that differ from the committee; " +
+		st.Rule = "histories = 9 corpus witnesses (+3 on a four-key and 1 on a seven-key committee in the quick tier) + seeded structured generation over 3 owners + the Alphabet nodes' own accounts as owners, 6+ short container blobs (version-field lengths 0,2,5) and blobs of 252, 253, 254, 255, 256, 300, 1024, 4096 bytes and the largest size a transaction carries, eACL tables / tokens / signatures / name labels at their length boundaries, 3 names x 2 zones, malformed blobs/ids/names, missing witnesses, witness scopes Global / CalledByEntry / None on contract-registered and committee-pre-registered aliases, native roles (NeoFSAlphabet, P2PNotary, Oracle, StateValidator) designated with lists that differ from the committee; " +
 			"non-trivial = the history contains a successful put, a successful delete and a refused/faulting call; distinct = by the sequence of (operation kind, outcome) pairs"
 	} else {
-		st.Rule = "histories = 8 corpus witnesses (+3 on a four-key committee in the quick tier) + seeded structured generation (fees from {0,1,7,10^9,-1,2^254}, balances steered to fee*N-1, fee*N, fee*N+1, owners that are themselves fee recipients, named and unnamed puts, fee changes between puts, native roles designated with supersets / disjoint sets / subsets / permutations of the committee); " +
+		st.Rule = "histories = 9 corpus witnesses (+3 on a four-key and 1 on a seven-key committee in the quick tier) + seeded structured generation (fees from {0,1,7,10^9,-1,2^254}, balances steered to fee*N-1, fee*N, fee*N+1, owners that are themselves fee recipients, named and unnamed puts, fee changes between puts, native roles designated with supersets / disjoint sets / subsets / permutations of the committee); " +
 			"non-trivial = the history contains a successful paying put (fee*N > 0) and a put refused or faulting; distinct = by the sequence of (operation kind, outcome, fee*N) triples"
 	}
 	q := newCnrCoq()
-	nh, maxOps := 56, 20
+	nh, maxOps := 50, 20
 	sizes := []int{1}
 	if Tier() == "thorough" {
 		nh, maxOps = 420, 40
@@ -2162,7 +2292,7 @@ func runContainerFamily(t *testing.T, prop string) {
 	ncorpus := len(cnrCorpus(newCnrEnv(t, 1)))
 	extra := 0
 	if Tier() != "thorough" {
-		extra = 3 // three corpus histories on a four-key committee
+		extra = 4 // three corpus histories on a four-key committee, one on a seven-key committee
 	}
 	total := ncorpus*len(sizes) + extra + nh
 	flush := func(last bool) {
@@ -2286,7 +2416,8 @@ func runContainerFamily(t *testing.T, prop string) {
 		if extra > 0 { // quick tier: owner = Alphabet node, designated roles and the F13 witness on a multi-key committee
 			corpusRun(0, 4)
 			corpusRun(3, 4)
-			corpusRun(4, 4)
+			corpusRun(5, 4)
+			corpusRun(4, 7) // seven keys: the Alphabet (5 of 7) and the committee majority (4 of 7) are different accounts
 		}
 	}
 	for h := 0; h < nh; h++ {
